@@ -37,6 +37,7 @@ var allWraps = []string{wCache, wCacheL, wRepairable, wRouter, wFailover, wDedup
 // cacheInfo describes the local side of a Cache that sits above the poisoned store.
 type cacheInfo struct {
 	skip bool
+	rep  bool // behind a RepairableCache: an invalid entry reads as "missing", the call goes on inwards
 	has  func(id desync.ChunkID) bool
 }
 
@@ -111,14 +112,11 @@ func buildStack(cur desync.Store, wraps []Wrap, healthy *dx.MemStore) *stack {
 			}
 			label := wCache
 			if w.Rep {
-				// an invalid entry then reads as "missing": this cache never decides a call
 				l = desync.NewRepairableCache(l)
-				ci = nil
+				ci.rep = true
 				label += "+rep"
 			}
-			if ci != nil {
-				st.caches = append([]*cacheInfo{ci}, st.caches...)
-			}
+			st.caches = append([]*cacheInfo{ci}, st.caches...)
 			cur = desync.NewCache(cur, l)
 			st.shape = append(st.shape, label)
 		case wCacheL:
@@ -205,6 +203,9 @@ func decidedBy(st *stack, l *leaf, id desync.ChunkID) (asserted bool, by string)
 		if c.has(id) {
 			if c.skip {
 				return false, fmt.Sprintf("cache#%d(skip)", i)
+			}
+			if c.rep {
+				continue // a valid entry is good data, an invalid one is passed over
 			}
 			return true, fmt.Sprintf("cache#%d(verify)", i)
 		}
